@@ -64,6 +64,7 @@ type c11Server struct {
 	dropFrom    int           // connections with index >= dropFrom are dropped by the server (-1: never)
 	dropCount   int           // > 0: only this many connections are dropped, the following ones are served
 	idleClose   bool          // close a connection after every (non-discovery) reply
+	stallAt     int           // > 0: the stallAt-th request of the first connection is left unread (8-byte window), then the server hangs up
 	dropKind    string        // on-accept | after-header | after-request
 	mu          sync.Mutex
 	counts      map[string]int // transmissions per identifier
@@ -121,11 +122,26 @@ func (s *c11Server) serve(c *memnet.Conn, idx int) {
 			return
 		}
 	}
+	served := 0
 	for {
+		if s.stallAt > 0 && idx == 0 && served == s.stallAt-1 {
+			// the next request is not read: the peer's window is 8 bytes, so the client's write blocks half-way; once
+			// everything has come to rest (fake time) the server hangs up in two steps, so that the write fails when the
+			// connection has already been torn down from the read side
+			c.SetPeerWindow(8)
+			time.Sleep(time.Millisecond)
+			// first only the server's sending direction ends (the client reads the end of the stream while its own write is
+			// still stuck), a moment later the connection is gone altogether and the stuck write fails
+			_ = c.CloseWrite()
+			time.Sleep(time.Millisecond)
+			c.Close()
+			return
+		}
 		raw, err := readFrame(c)
 		if err != nil {
 			return
 		}
+		served++
 		req, _ := ttlvref.Parse(raw, ttlvref.Lenient)
 		var reply []byte
 		isDiscovery := false
@@ -193,6 +209,9 @@ func c11Bubble(c c11Case) c11Result {
 	}
 	if c.Dir == "negotiation-fails-after-redial" {
 		srv.negFail = c.Kind
+	}
+	if c.Dir == "server-closes-during-write" {
+		srv.stallAt = c.At
 	}
 	if c.Dir == "server-drops-some-connections" {
 		srv.dropFrom, srv.dropKind, srv.dropCount, srv.idleClose = c.At, c.Kind, c.DropCount, c.IdleClose
@@ -699,6 +718,12 @@ func c11Space() []c11Case {
 					add("server-close-after-reply", at, "")
 				}
 				for at := 1; at <= 3; at++ {
+					// the at-th request is being written (the server does not read, its window is 8 bytes) when the server hangs up
+					add("server-closes-during-write", at, "")
+					// ... and on a transport whose Close takes 5 ms: the stuck write fails only after everybody else has reacted to the teardown
+					out = append(out, c11Case{Enforced: enforced, Dir: "server-closes-during-write", At: at, Reachable: reachable, FollowUp: fu, CloseMs: 5})
+				}
+				for at := 1; at <= 3; at++ {
 					add("hook-close", at, "")
 				}
 				if reachable {
@@ -753,7 +778,7 @@ func c11Space() []c11Case {
 
 func TestC11Faults(t *testing.T) {
 	const name = "TestC11Faults"
-	rec := evid.New("C11", name, "fault enumeration (single caller, synctest bubble): every Read index 1..7 and Write index 1..3 of the first connection x {EOF, closed, reset, short write, reset reported after the data was delivered} (also on a transport whose Close takes 500 ms, the follow-up being made while the failed connection is still closing), the server closing right after its 1st..3rd reply, a server that keeps accepting and dropping every connection (on accept, after 8 bytes, after the whole request) from the 1st/2nd/3rd connection on, a server that drops 1..4 consecutive connections and serves the others (optionally closing every connection right after its reply), Close() landing while a call is re-dialling (the dial then succeeds), the first connection lost during version negotiation and the negotiation failing on the replacement (Dial fails: nothing it opened may remain), the server going away exactly when the k-th request is about to be handed to the write loop, and the k-th call abandoned (context cancelled) between send and receive once its response has been read off the wire (yield-point hooks), "+
+	rec := evid.New("C11", name, "fault enumeration (single caller, synctest bubble): every Read index 1..7 and Write index 1..3 of the first connection x {EOF, closed, reset, short write, reset reported after the data was delivered} (also on a transport whose Close takes 500 ms, the follow-up being made while the failed connection is still closing), the server closing right after its 1st..3rd reply, the server hanging up while the 1st..3rd request is still being written (its window is full), a server that keeps accepting and dropping every connection (on accept, after 8 bytes, after the whole request) from the 1st/2nd/3rd connection on, a server that drops 1..4 consecutive connections and serves the others (optionally closing every connection right after its reply), Close() landing while a call is re-dialling (the dial then succeeds), the first connection lost during version negotiation and the negotiation failing on the replacement (Dial fails: nothing it opened may remain), the server going away exactly when the k-th request is about to be handed to the write loop, and the k-th call abandoned (context cancelled) between send and receive once its response has been read off the wire (yield-point hooks), "+
 		"x {with, without version negotiation} x {server reachable afterwards, not (the failing dials returning connection refused, an end-of-stream, closed-pipe, unexpected-EOF, reset or closed-connection error)} x follow-up {call again, twice, Close, Close then call, Clone}; two calls precede the follow-up; "+
 		"oracle: every call and Dial/Close/Clone returns (quiescence = hang verdict), response complete and its own or an error, never two consecutive failed calls on a reachable server, <= 4 transmissions per request and a bounded number of connections per call, a closed client serves nothing and dials nothing, census of client connection goroutines 0 at the end; "+
 		"non-trivial = a fault is injected; distinct by case").Attach(t)
